@@ -37,7 +37,7 @@ func c15Spec(name string) map[string]interface{} {
 		bump := act(`if (_.bindings["?n"] === "boom") { throw "boom"; } var c = (_.bindings.count || 0) + 1; _.out({x: c, from: _.props.mid}); return {count: c, "?one": 1};`, "start")
 		bump["branching"] = map[string]interface{}{"branches": []interface{}{
 			map[string]interface{}{"pattern": map[string]interface{}{"actionError": "?e"}, "target": "hit"}, map[string]interface{}{"target": "start"}}}
-		return map[string]interface{}{"name": "X", "actionErrorBranches": true, "nodes": map[string]interface{}{
+		return map[string]interface{}{"name": "X", "id": "one-id-for-all", "actionErrorBranches": true, "nodes": map[string]interface{}{
 			// "?one" is a number the matcher meets again as a bound variable (in memory it is what the script
 			// produced, after a restart what the host's loader made of it)
 			"start": msgNode(br(map[string]interface{}{"inc": "?n"}, "bump"), br(map[string]interface{}{"is": "?one"}, "hit")),
@@ -46,7 +46,7 @@ func c15Spec(name string) map[string]interface{} {
 		}}
 	case "Y":
 		// a failing action sends the machine to a node of the author's choice (actionErrorNode)
-		return map[string]interface{}{"name": "Y", "actionErrorNode": "on", "nodes": map[string]interface{}{
+		return map[string]interface{}{"name": "Y", "id": "one-id-for-all", "actionErrorNode": "on", "nodes": map[string]interface{}{
 			"start": msgNode(br(map[string]interface{}{"inc": "?n"}, "toOn")),
 			// "since" is a Date: in a state it is whatever the interpreter exported, in a store it is text
 			"toOn":  act(`if (_.bindings["?n"] === "boom") { throw "boom"; } _.out({y: "on", from: _.props.mid}); return {count: _.bindings.count || 0, since: new Date(86400000)};`, "on"),
